@@ -183,4 +183,97 @@ theorem run_err_reach {α S : Type} (c : Cfg α S) (init : List (E α S)) : ∀ 
               rw [hr]
               exact ReachE.step hs_reach he hm
 
+/-! ### latent-time post-processing of the candidates -/
+theorem tomorrow_inRange (ts : Ts) (h : TsOk ts) (k : Int) (hk : 0 ≤ k ∧ k ≤ 2) : (ts.date.addDays k).inRange = true ∧ (ts.date.addDays k).Valid := by
+  obtain ⟨o1, o2⟩ := h.ord
+  obtain ⟨av, ao⟩ := addDays_spec ts.date k (by omega) (by omega)
+  exact ⟨C03.inRange_of_ord _ av (by omega) (by omega), av⟩
+
+theorem ts_inRange (ts : Ts) (h : TsOk ts) : ts.date.inRange = true := by
+  simp only [Date.inRange, Bool.and_eq_true, decide_eq_true_eq]; have := h.lo; have := h.hi; omega
+
+theorem dateOk_ok (d : Date) (h : d.inRange = true) : dateOk d = .ok d := by
+  simp only [dateOk, h, if_true, pure, Except.pure]
+
+theorem latentTod_total (ts : Ts) (h : TsOk ts) (t : Time) (hq : t.isTOD = true) (ok : t.Ok) : ∃ r, latentTod ts t = .ok r := by
+  obtain ⟨x, ex⟩ := hour_of t hq
+  have hx := ok.hour x ex
+  have hmi : 0 ≤ t.minute.getD 0 ∧ t.minute.getD 0 ≤ 59 := by
+    cases hm : t.minute with
+    | none => simp
+    | some m => have := ok.minute m hm; simpa using this
+  have hin : inDay x (t.minute.getD 0) = true := by simp [inDay]; omega
+  unfold latentTod
+  simp only [ex, need, hin, bind, Except.bind, pure, Except.pure, Bool.not_true, Bool.false_eq_true, if_false]
+  by_cases hc : x * 60 + t.minute.getD 0 ≤ ts.h * 60 + ts.mi
+  · simp only [hc, if_true, dateOk_ok _ (tomorrow_inRange ts h 1 (by omega)).1]; exact ⟨_, rfl⟩
+  · simp only [hc, if_false, dateOk_ok _ (ts_inRange ts h)]; exact ⟨_, rfl⟩
+
+theorem addDays_addDays_inRange (ts : Ts) (h : TsOk ts) (k : Int) (hk : 0 ≤ k ∧ k ≤ 1) : ((ts.date.addDays k).addDays 1).inRange = true := by
+  obtain ⟨o1, o2⟩ := h.ord
+  obtain ⟨av, ao⟩ := addDays_spec ts.date k (by omega) (by omega)
+  obtain ⟨bv, bo⟩ := addDays_spec (ts.date.addDays k) 1 (by omega) (by omega)
+  exact C03.inRange_of_ord _ bv (by omega) (by omega)
+
+theorem latentInterval_total (ts : Ts) (h : TsOk ts) (a b : Time) (ha : a.isTOD = true) (hb : b.isTOD = true) (oa : a.Ok) (ob : b.Ok) :
+    ∃ r, latentInterval ts a b = .ok r := by
+  obtain ⟨x1, e1⟩ := hour_of a ha
+  obtain ⟨x2, e2⟩ := hour_of b hb
+  have h1 := oa.hour x1 e1
+  have h2 := ob.hour x2 e2
+  have m1 : 0 ≤ a.minute.getD 0 ∧ a.minute.getD 0 ≤ 59 := by
+    cases hm : a.minute with
+    | none => simp
+    | some m => have := oa.minute m hm; simpa using this
+  have m2 : 0 ≤ b.minute.getD 0 ∧ b.minute.getD 0 ≤ 59 := by
+    cases hm : b.minute with
+    | none => simp
+    | some m => have := ob.minute m hm; simpa using this
+  have hin : (inDay x1 (a.minute.getD 0) && inDay x2 (b.minute.getD 0)) = true := by simp [inDay]; omega
+  unfold latentInterval
+  simp only [e1, e2, need, hin, bind, Except.bind, pure, Except.pure, Bool.not_true, Bool.false_eq_true, if_false]
+  by_cases hs : x1 * 60 + a.minute.getD 0 ≤ ts.h * 60 + ts.mi
+  · simp only [hs, if_true]
+    have r1 := dateOk_ok _ (tomorrow_inRange ts h 1 (by omega)).1
+    have r2 := dateOk_ok _ (addDays_addDays_inRange ts h 1 (by omega))
+    by_cases hc : x2 * 60 + b.minute.getD 0 ≤ x1 * 60 + a.minute.getD 0
+    · simp only [hc, if_true, r1, r2]; exact ⟨_, rfl⟩
+    · simp only [hc, if_false, r1]; exact ⟨_, rfl⟩
+  · simp only [hs, if_false]
+    have r1 := dateOk_ok _ (tomorrow_inRange ts h 0 (by omega)).1
+    have r2 := dateOk_ok _ (addDays_addDays_inRange ts h 0 (by omega))
+    by_cases hc : x2 * 60 + b.minute.getD 0 ≤ x1 * 60 + a.minute.getD 0
+    · simp only [hc, if_true, r1, r2]; exact ⟨_, rfl⟩
+    · simp only [hc, if_false, r1]; exact ⟨_, rfl⟩
+
+theorem applyLatent_total (ts : Ts) (h : TsOk ts) (a : Art) (ok : a.v.Ok) : ∃ r, applyLatent ts a = .ok r := by
+  unfold applyLatent
+  split
+  · rename_i t hv
+    rw [hv] at ok
+    split
+    · rename_i hq
+      obtain ⟨r, hr⟩ := latentTod_total ts h t hq ok
+      simp only [hr, bind, Except.bind, pure, Except.pure]; exact ⟨_, rfl⟩
+    · exact ⟨_, rfl⟩
+  · rename_i f t hv
+    rw [hv] at ok
+    split
+    · rename_i hq
+      simp only [Bool.and_eq_true] at hq
+      obtain ⟨r, hr⟩ := latentInterval_total ts h f t hq.1 hq.2 (ok.1 f rfl) (ok.2.1 t rfl)
+      simp only [hr, bind, Except.bind, pure, Except.pure]; exact ⟨_, rfl⟩
+    · exact ⟨_, rfl⟩
+  · exact ⟨_, rfl⟩
+
+theorem latentAll_total {S : Type} (ts : Ts) (h : TsOk ts) : ∀ (cs : List (Cand S)), (∀ c ∈ cs, c.res.v.Ok) → (latentAll ts cs).2 = none := by
+  intro cs
+  induction cs with
+  | nil => intro _; rfl
+  | cons c0 cs ih =>
+    intro hall
+    obtain ⟨r, hr⟩ := applyLatent_total ts h c0.res (hall c0 (by simp))
+    simp only [latentAll, hr]
+    exact ih (fun c hc => hall c (List.mem_cons_of_mem _ hc))
+
 end QuickAdd
